@@ -93,6 +93,14 @@ pub fn scenarios(tier: Tier) -> Vec<Scenario> {
         }
     }
     out.push(mk("overwrite-two-sizes", base("p*100"), a2.clone(), 64, if q { 60_000 } else { 400_000 }));
+    // W2b: fixed-size overwrites mixed with rolled-back transactions (abandoned work must not cost pages)
+    let mut a2b: Vec<Action> = vec![Action::Reopen];
+    for k in keys {
+        a2b.push(tx(vec![OpSpec::put(&["w"], k, "p*100")]));
+    }
+    a2b.push(Action::Tx { ops: vec![OpSpec::put(&["w"], "a", "q*400"), OpSpec::put(&["w"], "zz", "x*1500")], commit: false });
+    a2b.push(Action::Tx { ops: vec![OpSpec::bucket("delb", &[], "w")], commit: false });
+    out.push(mk("overwrite-with-rollbacks", base("p*100"), a2b, 64, if q { 60_000 } else { 400_000 }));
     // W3: delete / re-insert (insertion counters masked in the key)
     let mut a3: Vec<Action> = vec![Action::Reopen];
     for k in keys {
@@ -238,6 +246,12 @@ pub fn run_lap(lap: &Lap, n: usize, path: &str) -> Value {
                 }
                 _ => {}
             }
+        }
+        if i % 10 == 9 {
+            // every tenth transaction is abandoned: it must not cost any page afterwards
+            let mut ops = lap_ops(lap.kind, i + 3);
+            ops.push(OpSpec::put(&["lap"], "abandoned", "e*3200"));
+            r.step(&Action::Tx { ops, commit: false }, &Oracles::NONE);
         }
         let ops = lap_ops(lap.kind, i);
         let or = if i % 97 == 0 { Oracles { dump_after: true, ..Oracles::NONE } } else { Oracles::NONE };
